@@ -34,7 +34,7 @@ pub fn plan(p: &EpParams) -> Plan {
     Plan {
         episodes: n,
         exhaustive: false,
-        rule: "sequential episodes on a populated server (2 topics, 3 subscriptions, backlog and leases): 20-30 seeded requests each with one corrupted field (hostile resource names incl. near-miss names, empty / 1 MiB / NUL / non-ASCII / slash-heavy strings; boundary integers for page_size, max_messages, ack_deadline_seconds, modify seconds, max_outstanding_messages; ack-ID batches with one bad element at each position; hostile page tokens; unsupported push endpoints; StreamingPull first messages and control messages that mix valid acks with invalid modifications, repeat subscription / max_outstanding_* or have mismatched arrays), every 5th request a pair of corruptions. Non-trivial: >=1 corrupted request was answered. Distinct: (request type, field, corruption class).".into(),
+        rule: "sequential episodes on a populated server (2 topics, 3 subscriptions, backlog and leases): 20-30 seeded requests each with one corrupted field (hostile resource names incl. near-miss names, empty / 1 MiB / NUL / non-ASCII / huge non-ASCII / slash-heavy strings; boundary integers for page_size, max_messages, ack_deadline_seconds, modify seconds, max_outstanding_messages; ack-ID batches with one bad element at each position; hostile page tokens; unsupported push endpoints; StreamingPull first messages and control messages that mix valid acks with invalid modifications, repeat subscription / max_outstanding_* or have mismatched arrays), every 5th request a pair of corruptions. Non-trivial: >=1 corrupted request was answered. Distinct: (request type, field, corruption class).".into(),
     }
 }
 
@@ -72,6 +72,10 @@ fn bad_names(kind: &str, rng: &mut Rng) -> (String, NameClass, &'static str) {
         ("/".repeat(200), NameClass::Bad, "slashes"),
         (format!("projects/p1/{}\u{0}/t1", seg), NameClass::Bad, "nul"),
         ("projects/é".into(), NameClass::Bad, "non-ascii-short"),
+        // huge and non-ASCII at once (multi-byte characters across every power-of-two byte offset)
+        ("鍵".repeat(90_000), NameClass::Bad, "huge-non-ascii"),
+        (format!("x{}", "é".repeat(20_000)), NameClass::Bad, "huge-non-ascii"),
+        (format!("projects/p1/{}/{}", seg, "é".repeat(40_000)), NameClass::Missing, "missing-huge-non-ascii"),
         (format!("{}/p1/projects/t1", seg), NameClass::Bad, "swapped"),
         (format!("projects/p1/{}/nope", seg), NameClass::Missing, "missing"),
         (format!("projects/é/{}/ü", seg), NameClass::Missing, "missing-non-ascii"),
